@@ -109,6 +109,7 @@ type kv struct {
 type c05Model struct{ elems []kv }
 
 func (m *c05Model) set(id uint8, v []byte) {
+	v = append([]byte{}, v...) // the model owns its values: the library may be handed slices that share storage
 	for i := range m.elems {
 		if m.elems[i].id == id {
 			m.elems[i].val = v
@@ -559,6 +560,7 @@ func c05Random(c *fw.Ctx, i int) {
 	n := r.Range(1, 12)
 	var ops []c05Op
 	var used []uint8
+	var passed [][]byte
 	for k := 0; k < n; k++ {
 		pickID := func() uint8 {
 			if len(used) > 0 && r.Bool() {
@@ -587,7 +589,24 @@ func c05Random(c *fw.Ctx, i int) {
 				ln = r.Range(0, 300)
 			}
 			used = append(used, id)
-			ops = append(ops, c05Op{kind: 0, id: id, val: r.Bytes(ln)})
+			val := r.Bytes(ln)
+			if len(passed) > 0 && r.Chance(1, 5) {
+				// hand the library a slice it was given before (same storage for two ids), or a window into one,
+				// or fresh bytes of exactly the length of an earlier value
+				prev := passed[r.Intn(len(passed))]
+				switch r.Intn(3) {
+				case 0:
+					val = prev
+				case 1:
+					if len(prev) > 1 {
+						val = prev[:len(prev)-1]
+					}
+				default:
+					val = r.Bytes(len(prev))
+				}
+			}
+			passed = append(passed, val)
+			ops = append(ops, c05Op{kind: 0, id: id, val: val})
 		case 5, 6:
 			ops = append(ops, c05Op{kind: 1, id: pickID()})
 		case 7, 8:
